@@ -5,6 +5,7 @@ import (
 	"encoding/binary"
 	"encoding/hex"
 	"fmt"
+	"io"
 	"os"
 	"runtime"
 	"runtime/debug"
@@ -30,8 +31,13 @@ type BytesScript struct {
 	Chans    []ChanSpec `json:"chans,omitempty"`     // static: channel set
 	PoolKeys []uint32   `json:"pool_keys,omitempty"` // channel keys of the pool the input was built for
 	Updates  [][]int    `json:"updates,omitempty"`   // *-updated: pool indices per Update call
-	Input    string     `json:"input"`               // hex
-	How      string     `json:"how,omitempty"`       // how the generator built the input (for humans)
+	// Stream: call DecodeStream with a reader that exposes nothing but Read (as the WebSocket
+	// message reader in freighter's stream server does) and hands out at most Chunk bytes per
+	// call (0 = no limit); otherwise Decode(bytes).
+	Stream bool   `json:"stream,omitempty"`
+	Chunk  int    `json:"chunk,omitempty"`
+	Input  string `json:"input"`         // hex
+	How    string `json:"how,omitempty"` // how the generator built the input (for humans)
 }
 
 const maxInput = 1024
@@ -200,6 +206,9 @@ var (
 func genBytesWith(targets []string, poolKeys func() []uint32) func(t *rapid.T) BytesScript {
 	return func(t *rapid.T) BytesScript {
 		sc := BytesScript{Target: rapid.SampledFrom(targets).Draw(t, "target")}
+		if sc.Stream = rapid.IntRange(0, 2).Draw(t, "stream") == 0; sc.Stream {
+			sc.Chunk = rapid.SampledFrom([]int{0, 0, 1, 3, 7}).Draw(t, "chunk")
+		}
 		var sets [][]ChanSpec
 		switch sc.Target {
 		case "static":
@@ -264,6 +273,38 @@ func genBytesWith(targets []string, poolKeys func() []uint32) func(t *rapid.T) B
 		sc.Input = hex.EncodeToString(input)
 		return sc
 	}
+}
+
+// opaqueReader exposes only Read.
+type opaqueReader struct {
+	b     []byte
+	chunk int
+}
+
+func (r *opaqueReader) Read(p []byte) (int, error) {
+	if len(r.b) == 0 {
+		return 0, io.EOF
+	}
+	n := len(p)
+	if r.chunk > 0 && n > r.chunk {
+		n = r.chunk
+	}
+	n = copy(p[:n], r.b)
+	r.b = r.b[n:]
+	return n, nil
+}
+
+// httpCodec calls Decode(bytes) or DecodeStream(opaque reader) of the HTTP framer codec.
+type httpCodec struct {
+	c   *httpframer.Codec
+	src *opaqueReader
+}
+
+func (h *httpCodec) Decode(ctx context.Context, input []byte, v any) error {
+	if h.src != nil {
+		return h.c.DecodeStream(ctx, h.src, v)
+	}
+	return h.c.Decode(ctx, input, v)
 }
 
 // reporter is the part of kit.Report the executor needs (the worker records into its own).
@@ -359,14 +400,26 @@ func execBytes(sc BytesScript, rep reporter) (big bool, res error) {
 				}
 			}
 		}
+		var src *opaqueReader
+		if sc.Stream {
+			src = &opaqueReader{b: input, chunk: sc.Chunk}
+		}
 		if !strings.HasPrefix(sc.Target, "http") {
 			return func() (int, error) {
-				fr, err := c.Decode(input)
+				var (
+					fr  framer.Frame
+					err error
+				)
+				if src != nil {
+					fr, err = c.DecodeStream(src)
+				} else {
+					fr, err = c.Decode(input)
+				}
 				decoded = fr
 				return fr.Count(), err
 			}, nil
 		}
-		hc := &httpframer.Codec{Codec: c, LowerPerfCodec: xjson.Codec}
+		hc := &httpCodec{c: &httpframer.Codec{Codec: c, LowerPerfCodec: xjson.Codec}, src: src}
 		switch sc.Msg {
 		case "wreq":
 			v := &fhttp.WSMessage[httpframer.WriterRequest]{}
@@ -395,6 +448,9 @@ func execBytes(sc BytesScript, rep reporter) (big bool, res error) {
 		return false, nil
 	}
 	rep.Class("target-" + sc.Target)
+	if sc.Stream {
+		rep.Class("via-DecodeStream-opaque-reader")
+	}
 	if sc.Msg != "" {
 		rep.Class("msg-" + sc.Msg)
 	}
